@@ -935,9 +935,11 @@ def CheckBlock(block, fCheckPoW = True, fCheckMerkleRoot = True, cur_time=None):
             root = block.vWitnessMerkleTree[-1]
             # vtx[0]: coinbase
             # vtxinwit[0]: first input
-            nonce_script = block.vtx[0].wit.vtxinwit[0].scriptWitness
-            nonce = nonce_script.stack[0]
-            if len(nonce_script.stack) != 1 or len(nonce) != 32:
+            coinbase_wit = block.vtx[0].wit.vtxinwit
+            if len(coinbase_wit) < 1 or len(coinbase_wit[0].scriptWitness.stack) != 1:
+                raise CheckBlockError("CheckBlock() : invalid coinbase witnessScript")
+            nonce = coinbase_wit[0].scriptWitness.stack[0]
+            if len(nonce) != 32:
                 raise CheckBlockError("CheckBlock() : invalid coinbase witnessScript")
             try:
                 index = block.get_witness_commitment_index()
